@@ -387,6 +387,14 @@ def run(ctx):
     log("[C08] %d builds in %.0fs" % (len(builds), time.time() - t))
     failed = [b for b in builds if not b["ok"]]
     if failed:
+        # the harness binary may have been rebuilt from a changing /repo tree while we ran: retry once, alone
+        log("[C08] retrying %d failed builds: %s" % (len(failed), [(b["job"]["id"], b["job"]["profile"]) for b in failed][:8]))
+        ctx._built.discard("vh-exec")
+        ctx.build_vh("vh-exec")
+        redo = {id(b["job"]): _build_one(ctx, b["job"]) for b in failed}
+        builds = [redo.get(id(b["job"]), b) for b in builds]
+        failed = [b for b in builds if not b["ok"]]
+    if failed:
         mc_future.result()
         raise ToolError("pool packages that must build did not: " + "; ".join(
             "%s/%s: %s" % (b["job"]["id"], b["job"]["profile"], b["detail"][:300]) for b in failed[:5]))
